@@ -25,7 +25,7 @@ try:
         for p, rc, o in ex.map(runp, props):
             res[p] = rc
             if rc != 0:
-                lines = [l for l in o.splitlines() if l.startswith("  violation:") or "BROKEN" in l]
+                lines = [l for l in o.splitlines() if "violation:" in l or "BROKEN" in l]
                 print("  ALARM %s rc=%d %s" % (p, rc, (lines[0] if lines else o.strip().splitlines()[-1])[:220]), flush=True)
     print("  %d of %d checks silent" % (sum(1 for v in res.values() if v == 0), len(res)), flush=True)
     json.dump({"applies": ok_apply, "suite": suite, "checks": res}, open(os.path.join(sd, "result.json"), "w"), indent=1)
